@@ -689,3 +689,7 @@ func notePanics(res *Result, panics []interface{}) {
 		}
 	}
 }
+
+// isReadOp: does this simulated file-system operation deliver the content of a file?
+// (os.ReadFile is logged as "readfile", os.Open/os.OpenFile as "open": a tree may use either.)
+func isReadOp(op string) bool { return op == "readfile" || op == "open" }
